@@ -267,6 +267,68 @@ Proof.
   symmetry. apply orb_true_iff. destruct H; [left|right]; apply Rltb_true; assumption.
 Qed.
 
+(* ---- the waypoint-crossing refusal (not a clause of the property; characterised here) ---- *)
+
+Lemma bisect_mono (xs : list R) (d1 d2 : R) : d1 <= d2 -> (bisectR xs d1 <= bisectR xs d2)%nat.
+Proof.
+  intros H. induction xs as [|x r IH]; simpl; [lia|]. rn.
+  destruct (Rltb x d1) eqn:E1.
+  - apply Rltb_true in E1. replace (Rltb x d2) with true by (symmetry; apply Rltb_true; lra). lia.
+  - lia.
+Qed.
+
+Lemma location_never_cross (g : trackR) (d : R) : locationR g d <> Refuse RCross.
+Proof.
+  unfold location. destruct (negb _); [discriminate|]. destruct (bisectR _ _); [discriminate|].
+  destruct (_ <=? _)%num; discriminate.
+Qed.
+
+(* sound: a step is refused as "crossing" only if some waypoint lies strictly inside it *)
+Lemma step_cross_sound (g : trackR) (a b : R) :
+  stepR g a b = Refuse RCross -> exists k, a < idxR g k < a + b.
+Proof.
+  unfold step. destruct (_ || _) eqn:En; [discriminate|].
+  apply orb_false_iff in En. destruct En as [_ En]. rn. apply Rltb_false in En.
+  destruct (containsR g a && containsR g (a + b)) eqn:Ec.
+  - destruct (negb (allow g) && negb (Nat.eqb (bisectR (indexR g) a) (bisectR (indexR g) (a + b)))
+              && Rltb a (idxR g (bisectR (indexR g) a))) eqn:Ex.
+    + intros _. apply andb_true_iff in Ex. destruct Ex as [Ex E3]. apply andb_true_iff in Ex. destruct Ex as [_ E2].
+      apply Rltb_true in E3. apply negb_true_iff in E2. apply Nat.eqb_neq in E2.
+      exists (bisectR (indexR g) a). split; [exact E3|].
+      assert (Hm := bisect_mono (indexR g) a (a + b) ltac:(lra)).
+      apply (bisect_before (indexR g) (a + b)). lia.
+    + intros H. exfalso. exact (location_never_cross g (a + b) H).
+  - destruct (negb (allow g)); discriminate.
+Qed.
+
+(* not complete: a step that STARTS exactly on a waypoint is never refused as crossing, however many
+   waypoints lie strictly inside it (the code's "degenerate case" clause) — in particular every step from 0 *)
+Lemma step_from_waypoint_not_cross_refused (g : trackR) (a b : R) :
+  containsR g a && containsR g (a + b) = true -> 0 <= a -> 0 <= b ->
+  a = idxR g (bisectR (indexR g) a) -> stepR g a b = locationR g (a + b).
+Proof.
+  intros Hc Ha Hb He. unfold step. rn.
+  replace (Rltb a 0) with false by (symmetry; apply Rltb_false; lra).
+  replace (Rltb b 0) with false by (symmetry; apply Rltb_false; lra). simpl orb. cbv iota.
+  rewrite Hc. rewrite <- He.
+  replace (Rltb a a) with false by (symmetry; apply Rltb_false; lra). rewrite andb_false_r. reflexivity.
+Qed.
+
+Lemma bisect_index_0 (g : trackR) : bisectR (indexR g) 0 = O.
+Proof.
+  unfold index. destruct (@dists RNum g); simpl; rn;
+  (replace (Rltb 0 0) with false; [reflexivity|symmetry; apply Rltb_false; lra]).
+Qed.
+
+Lemma step_from_start_is_location (g : trackR) (b : R) :
+  0 <= b <= totalR g -> stepR g 0 b = locationR g (0 + b).
+Proof.
+  intros Hb. apply step_from_waypoint_not_cross_refused; try lra.
+  - assert (C1 : containsR g 0 = true) by (apply contains_iff; lra).
+    assert (C2 : containsR g (0 + b) = true) by (apply contains_iff; lra). rewrite C1, C2. reflexivity.
+  - rewrite bisect_index_0, idx_0. reflexivity.
+Qed.
+
 (* ------------------------------------------------------------------ *)
 (* azimuth convention                                                  *)
 (* ------------------------------------------------------------------ *)
